@@ -7,6 +7,8 @@ import (
 	"github.com/jdillenkofer/pithos/internal/storage"
 	"github.com/jdillenkofer/pithos/verifharness/dump"
 	"github.com/jdillenkofer/pithos/verifharness/ev"
+	"github.com/jdillenkofer/pithos/verifharness/httpside"
+	"github.com/jdillenkofer/pithos/verifharness/s3http"
 	"github.com/jdillenkofer/pithos/verifharness/prog"
 	"github.com/jdillenkofer/pithos/verifharness/run"
 	"github.com/jdillenkofer/pithos/verifharness/stacks"
@@ -28,12 +30,49 @@ func genCfg() prog.GenConfig {
 	}
 }
 
-func gen(t *rapid.T, env *ev.Env) run.ProgCase {
-	stack := rapid.SampledFrom([]string{"P2", "N1", "N2", "P1"}).Draw(t, "stack")
-	return run.ProgCase{Stack: stack, Ops: genCfg().Gen(t)}
+// Case: a program plus the API level it is driven through.
+type Case struct {
+	run.ProgCase
+	Via string `json:"via"` // storage | http
 }
 
-func runCase(env *ev.Env, c run.ProgCase) ev.Outcome {
+func gen(t *rapid.T, env *ev.Env) Case {
+	stack := rapid.SampledFrom([]string{"P2", "N1", "N2", "P1"}).Draw(t, "stack")
+	c := Case{ProgCase: run.ProgCase{Stack: stack, Ops: genCfg().Gen(t)}, Via: rapid.SampledFrom([]string{"storage", "http"}).Draw(t, "via")}
+	if c.Via == "http" {
+		// over HTTP an object without a content type is served as application/octet-stream
+		// (S3's default); keep that value out of the explicit content types so that the
+		// HTTP side can map it back to "none"
+		for i := range c.Ops {
+			if ct := c.Ops[i].ContentType; ct != nil && *ct == "application/octet-stream" {
+				v := "application/x-verif"
+				c.Ops[i].ContentType = &v
+			}
+		}
+	}
+	return c
+}
+
+// mixedSide sends everything the HTTP API can express through the HTTP handler
+// (header parsing included) and the rest (storage-class transitions, which have
+// no S3 request) directly to the storage.
+type mixedSide struct {
+	http *httpside.Side
+	st   *prog.StorageSide
+}
+
+func (m *mixedSide) Do(c prog.Concrete) prog.Result {
+	if c.Kind == prog.OpTransition {
+		return m.st.Do(c)
+	}
+	r := m.http.Do(c)
+	if r.Obj != nil && r.Obj.ContentType != nil && *r.Obj.ContentType == "application/octet-stream" {
+		r.Obj.ContentType = nil
+	}
+	return r
+}
+
+func runCase(env *ev.Env, c Case) ev.Outcome {
 	var st run.ProgStats
 	directiveCopyOntoOther := false
 	appendOrTransitionWithMeta := false
@@ -68,7 +107,15 @@ func runCase(env *ev.Env, c run.ProgCase) ev.Outcome {
 		}
 		return false
 	}
-	o := run.RunModelProgram(env, c, run.ModelRunOptions{Dump: dump.Options{Versions: true}, Names: names, Stats: &st, AfterStep: after})
+	opts := run.ModelRunOptions{Dump: dump.Options{Versions: true}, Names: names, Stats: &st, AfterStep: after,
+		Setup: func(s *run.Session) { s.Model.PromoteByRowCreation = true }}
+	if c.Via == "http" {
+		opts.Side = func(inst *stacks.Instance) prog.Side {
+			return &mixedSide{http: &httpside.Side{H: s3http.NewHandler(inst.Storage), MixCase: true}, st: prog.NewStorageSide(inst.Storage)}
+		}
+	}
+	o := run.RunModelProgram(env, c.ProgCase, opts)
+	o.Class("via:" + c.Via)
 	o.NonTrivial = directiveCopyOntoOther && st.OKByKind[prog.OpCopy] > 0
 	if appendOrTransitionWithMeta {
 		o.Class("append-or-transition-of-object-with-metadata")
@@ -83,7 +130,7 @@ func runCase(env *ev.Env, c run.ProgCase) ev.Outcome {
 }
 
 func TestC11(t *testing.T) {
-	ev.Main(t, ev.Spec[run.ProgCase]{
+	ev.Main(t, ev.Spec[Case]{
 		ID:    "C11",
 		Level: "exploration",
 		Rule: "programs of 6-30 ops (put / multipart create+complete / copy with metadata+tagging directives, storage class, website redirect, all system headers, user metadata, tag sets; then append, transition, PutObjectTagging) over 2 buckets x 3 keys, versioned and unversioned, on stacks P1/P2/N1/N2 through the storage API; " +
